@@ -941,7 +941,7 @@ func checkIPv4(data string) bool {
 	}
 	numbers := make([]int, 4)
 	for i, f := range fragments {
-		if len(f) == 0 {
+		if len(f) == 0 || f[0] < '0' || f[0] > '9' {
 			return false
 		}
 		number := std.Atoi10(f)
